@@ -733,7 +733,7 @@ static void build_cases(void)
         int a, b2;
         for (a = 0; a < 6; a++) for (b2 = 0; b2 < 5; b2++) for (p = 0; p < 2; p++) {
             if (dsel[a] == S_INLINE && p == P_ARRAY) continue;
-            if (!vrt_thorough && b2 >= 3 && ((a + b2 + p + (int)vrt_seed) & 3) != 0) continue;
+            if (!vrt_thorough && b2 >= 3 && (((unsigned)(a + b2 + p) + (unsigned)vrt_seed) & 3u) != 0) continue;
             memset(&c, 0, sizeof(c));
             c.kind = C_DEEP; c.sel = dsel[a]; c.pat = dpat[b2]; c.path = p;
             c.sizeidx = ((a + b2 + p) & 1) ? 3 : 6;       /* 8- and 16-byte records: 32-bit keys, unique tags */
